@@ -74,7 +74,8 @@ type c19Obs struct {
 	entered   [][]bool  // storage path entered for that (topic, partition) at all
 	owns      []bool    // handler's manager, per pool resource
 	ownsOther []bool
-	keys      []int // per pool resource: -1 absent, else broker index of the stored id (or -2)
+	setupEvs  []string // the executed pre-state as model events
+	keys      []int    // per pool resource: -1 absent, else broker index of the stored id (or -2)
 }
 
 type c19Store struct {
@@ -92,6 +93,7 @@ type c19World struct {
 	mgrs      [2]*metadata.PartitionLeaseManager
 	old       []*metadata.PartitionLeaseManager
 	granted   []clientv3.LeaseID
+	revoked   []int // lease numbers revoked by the setup op being executed
 }
 
 func (w *c19World) newMgr(b int) *metadata.PartitionLeaseManager {
@@ -145,6 +147,20 @@ func (w *c19World) setup(op c19Setup) {
 	case "release":
 		m.Release(res.topic, res.part)
 	case "releaseall":
+		// both steps of ReleaseAll: the model event ReleaseAll (local part) followed by the
+		// expiry of the session lease it revokes (lease number = order of grant)
+		if l, ok := m.EtcdClient().Lease.(*c19Lease); ok {
+			c19Mu.Lock()
+			for _, id := range c19Current[l] {
+				for n, g := range w.granted {
+					if g == id {
+						w.revoked = append(w.revoked, n+1)
+					}
+				}
+			}
+			delete(c19Current, l)
+			c19Mu.Unlock()
+		}
 		m.ReleaseAll()
 	case "expire":
 		// expire the manager's current session: revoke its lease and wait until the manager noticed
@@ -221,8 +237,17 @@ func c19Run(t *testing.T, endpoints []string, root *clientv3.Client, cs c19Case)
 	_, _ = root.Delete(ctx, metadata.PartitionLeasePrefix()+"/", clientv3.WithPrefix())
 	w.mgrs[0], w.mgrs[1] = w.newMgr(0), w.newMgr(1)
 	defer w.cleanup()
+	var setupEvs []string
 	for _, op := range cs.Setup {
+		if op.B < 0 || op.B > 1 || op.R < 0 || op.R >= len(c19Pool) {
+			continue
+		}
+		w.revoked = nil
 		w.setup(op)
+		setupEvs = append(setupEvs, c19CoqSetup(op)...)
+		for _, n := range w.revoked {
+			setupEvs = append(setupEvs, "OrphanExpire "+cqZ(int64(n)))
+		}
 	}
 
 	brokerInfo := protocol.MetadataBroker{NodeID: 1, Host: "localhost", Port: 19092}
@@ -285,6 +310,7 @@ func c19Run(t *testing.T, endpoints []string, root *clientv3.Client, cs c19Case)
 	}
 
 	var o c19Obs
+	o.setupEvs = setupEvs
 	if payload != nil {
 		resp := kmsg.NewPtrProduceResponse()
 		body, ok := protocol.SkipResponseHeader(resp.Key(), 3, payload)
@@ -517,13 +543,7 @@ func c19CoqSetup(op c19Setup) []string {
 }
 
 func c19Coq(cs c19Case, o c19Obs) string {
-	var evs []string
-	for _, op := range cs.Setup {
-		if op.B < 0 || op.B > 1 || op.R < 0 || op.R >= len(c19Pool) {
-			continue
-		}
-		evs = append(evs, c19CoqSetup(op)...)
-	}
+	evs := o.setupEvs
 	bp := int64(-1)
 	if cs.S3 == "degraded" {
 		bp = 7
